@@ -109,6 +109,7 @@ func genCase(t *rapid.T) Case {
 				// operations, and Err reports "the context's trap error if present"
 				nt := arith.Case{Op: "settraps", Ctx: c.Main.Ctx, X: core.Dec{Coeff: "0"}, Y: core.Dec{Coeff: "0"}}
 				nt.Ctx.Traps = genTraps(t)
+				nt.QExp = int32(gen.Pick(t, 2, "poll")) // 1: the caller looks at Err() right after the change
 				c.Steps = append(c.Steps, nt)
 			}
 		}
@@ -284,7 +285,9 @@ func checkErrDecimal(c Case, st *core.Stats) error {
 				mErr = fmt.Errorf("accumulated %s now trapped", core.FlagStr(mFlags&apd.Condition(s.Ctx.Traps)))
 				st.NonTrivial("accumulated-flag-becomes-trapped")
 			}
-			if (ed.Err() == nil) != (mErr == nil) {
+			// Err() caches what it finds, so half of the time the caller does not look: the next
+			// wrapper has to notice the pending trap error by itself
+			if s.QExp == 1 && (ed.Err() == nil) != (mErr == nil) {
 				return fmt.Errorf("ErrDecimal step %d: after the traps were set to %s with accumulated Flags %s, Err() = %v (history: %s)", i, core.FlagStr(apd.Condition(s.Ctx.Traps)), core.FlagStr(ed.Flags), ed.Err(), hist)
 			}
 			continue
